@@ -148,15 +148,15 @@ func genConstraint(r *gen.Rand) consGen {
 	case 12:
 		return consGen{"range(" + ns + "," + ms + ")", numsAround(n, m)}
 	case 13:
-		return consGen{"datetime(2006\\-01\\-02)", []string{"2020-01-02", "2020-13-02", "2020-1-2", "20200102", "2020-02-30"}}
+		return consGen{"datetime(2006\\-01\\-02)", []string{"2020-01-02", "2020-13-02", "2020-1-2", "20200102", "2020-02-30", "1999-12-31", "abcdefghij"}}
 	case 14:
 		return consGen{"datetime(2006\\-01\\-02T15\\:04)", []string{"2020-01-02T10:30", "2020-01-02t10:30", "2020-01-02"}}
 	case 15:
-		return consGen{"regex(p([a-z]+)ch)", []string{"peach", "punch", "pch", "p1ch", "PEACH", "xpeachy", "Peach"}}
+		return consGen{"regex(p([a-z]+)ch)", []string{"peach", "punch", "pch", "p1ch", "PEACH", "xpeachy", "Peach", "p1ach", "pxch", "pe-ch"}}
 	case 16:
 		return consGen{"regex(^[A-Z]+$)", []string{"ABC", "abc", "Abc", "A", "A1"}}
 	case 17:
-		return consGen{"regex(^\\d{4}$)", []string{"2024", "202", "20245", "abcd"}}
+		return consGen{"regex(^\\d{4}$)", []string{"2024", "202", "20245", "abcd", "1999", "19a9"}}
 	case 18:
 		return consGen{"regex(^\\D+$)", []string{"abc", "123", "a1"}}
 	case 19:
@@ -272,6 +272,53 @@ func (g GenPat) Fill(r *gen.Rand) (string, []string) {
 		sb.WriteString(v)
 	}
 	return sb.String(), vals
+}
+
+// FillHistory returns n filled paths for consecutive requests on one app: the first is an ordinary
+// fill; in the following ones every parameter value is replaced by another candidate of the SAME
+// length (so all values sit at the same offsets of the reused path buffer) whenever one exists —
+// candidates are the values aimed at the parameter's constraints (on and off their boundaries:
+// verdicts flip between requests) and the general values.
+func (g GenPat) FillHistory(r *gen.Rand, n int) []string {
+	_, first := g.Fill(r)
+	prev := first
+	var out []string
+	for k := 0; k < n; k++ {
+		var sb strings.Builder
+		cur := make([]string, len(prev))
+		pi := 0
+		for i, t := range g.Toks {
+			if t.Kind == Lit {
+				sb.WriteString(unesc(t.Text))
+				continue
+			}
+			v := prev[pi]
+			if k > 0 {
+				var same []string
+				for _, c := range g.Vals[i] {
+					if len(c) == len(v) && c != v {
+						same = append(same, c)
+					}
+				}
+				if len(same) == 0 || r.Chance(1, 6) {
+					for _, c := range generalVals {
+						if len(c) == len(v) && c != v {
+							same = append(same, c)
+						}
+					}
+				}
+				if len(same) > 0 && r.Chance(9, 10) {
+					v = gen.Pick(r, same)
+				}
+			}
+			cur[pi] = v
+			pi++
+			sb.WriteString(v)
+		}
+		out = append(out, sb.String())
+		prev = cur
+	}
+	return out
 }
 
 const pathAlphabet = "/ab-.:*+%A1c~"
